@@ -170,7 +170,19 @@ func c12R2(c *Ctx) {
 					case n == "bytes.NewBuffer" || n == "bytes.NewReader" || n == "string":
 						c.Violation(name, pos, "alias-newbuffer", n+" wraps the parse buffer without copying: the frame handed out aliases memory the next read overwrites")
 					default:
-						c.Undecided(name, pos, "alias-callee:"+n, "a slice of the parse buffer is passed to "+n+", which is not in the table of read-only sinks")
+						ro := false
+						if cal := cc.StaticCallee(); cal != nil && p.InModule(cal) {
+							for i, a := range cc.Args {
+								if a == *op && p.paramReadOnly(cal, i, 0) {
+									ro = true
+								}
+							}
+						}
+						if ro {
+							c.OK(name, pos, "in-module callee only reads the slice")
+						} else {
+							c.Undecided(name, pos, "alias-callee:"+n, "a slice of the parse buffer is passed to "+n+", which is not in the table of read-only sinks and is not shown to only read it")
+						}
 					}
 				default:
 					// phi, binop on slices etc.
@@ -333,4 +345,72 @@ func c12R4(c *Ctx) {
 			}
 		})
 	}
+}
+
+// paramReadOnly: the function only reads the slice parameter: element loads, len/cap, range,
+// re-slicing that is itself only read, and passing it on to read-only sinks. It neither
+// stores, returns, boxes nor sends it.
+func (p *Prog) paramReadOnly(fn *ssa.Function, idx int, depth int) bool {
+	if fn == nil || fn.Blocks == nil || idx >= len(fn.Params) || depth > 2 {
+		return false
+	}
+	var ok func(v ssa.Value, d int) bool
+	ok = func(v ssa.Value, d int) bool {
+		if d > 6 {
+			return false
+		}
+		refs := v.Referrers()
+		if refs == nil {
+			return true
+		}
+		for _, r := range *refs {
+			switch x := r.(type) {
+			case *ssa.IndexAddr:
+				for _, rr := range *x.Referrers() {
+					if u, isU := rr.(*ssa.UnOp); !isU || u.Op != token.MUL {
+						return false
+					}
+				}
+			case *ssa.Index, *ssa.Range, *ssa.DebugRef:
+			case *ssa.Slice:
+				if !ok(x, d+1) {
+					return false
+				}
+			case *ssa.Phi:
+				if !ok(x, d+1) {
+					return false
+				}
+			case *ssa.BinOp:
+				// comparison with nil
+			case ssa.CallInstruction:
+				cc := x.Common()
+				n := callName(cc)
+				switch n {
+				case "len", "cap", "bytes.Index", "bytes.IndexByte", "bytes.Equal", "bytes.HasPrefix", "bytes.Count", "string":
+					continue
+				}
+				if n == "copy" && len(cc.Args) == 2 && cc.Args[1] == v && cc.Args[0] != v {
+					continue
+				}
+				cal := cc.StaticCallee()
+				if cal == nil || !p.InModule(cal) {
+					return false
+				}
+				for i, a := range cc.Args {
+					if a == v && !p.paramReadOnly(cal, i, depth+1) {
+						return false
+					}
+				}
+			case *ssa.Convert:
+				// string(b) copies
+				if bt, isB := x.Type().Underlying().(*types.Basic); !isB || bt.Kind() != types.String {
+					return false
+				}
+			default:
+				return false
+			}
+		}
+		return true
+	}
+	return ok(fn.Params[idx], 0)
 }
